@@ -1245,13 +1245,13 @@ package scipipe
 
 //@ func NewBaseIP(path) (res)
 //@   props C09
-//@   modifies fresh
+//@   modifies new(BaseIP.path), new(BaseIP.id), new(BaseIP.auditInfo)
 //@   ensures fresh: res != nil && fresh(res) && res.path == path && res.auditInfo == nil
 
 //@ func NewInPort(name) (inp)
 //@   props C04
 //@   trusted reads SCIPIPE_BUFSIZE via getBufsize (os.LookupEnv, strconv); only freshness and emptiness of the new port are relied upon
-//@   modifies fresh
+//@   modifies new(InPort.Chan), new(InPort.name), new(InPort.process), new(InPort.RemotePorts), new(InPort.ready), new(map[string]*OutPort), new(chan)
 //@   ensures fresh: inp != nil && fresh(inp) && inp.Chan != nil && fresh(inp.Chan) && inp.RemotePorts != nil && fresh(inp.RemotePorts) && len(inp.RemotePorts) == 0 && !inp.ready && inp.name == name
 //@   ensures empty-channel: chanSentN(inp.Chan) == 0 && chanRecvN(inp.Chan) == 0 && !chanClosed(inp.Chan)
 
@@ -1262,7 +1262,7 @@ package scipipe
 
 //@ func NewFileIP(path) (res, err)
 //@   props C02 C09 C11
-//@   modifies fresh, locked
+//@   modifies locked, new(BaseIP.path), new(BaseIP.id), new(BaseIP.auditInfo), new(FileIP.BaseIP), new(FileIP.lock), new(FileIP.SubStream), new(FileIP.doStream), new(FileIP.buffer), new(InPort.Chan), new(InPort.name), new(InPort.process), new(InPort.RemotePorts), new(InPort.ready), new(map[string]*OutPort), new(chan)
 //@   ensures invalid-path-is-an-error[C09]: (err == nil) <==> validPath(path)
 //@   ensures fresh: err == nil ==> res != nil && fresh(res) && res.BaseIP != nil && fresh(res.BaseIP) && allocated(res.BaseIP) && res.path == path && !res.doStream && res.SubStream != nil && fresh(res.SubStream) && res.lock != nil
 //@   ensures existing-file-carries-its-record[C02,C11]: err == nil && statOK(fsEpoch, path) ==> res.auditInfo == loadedAudit(path + ".audit.json", fsEpoch)
